@@ -126,9 +126,15 @@ func TestVerifRecovery(t *testing.T) {
 			changed = 1
 		}
 		// let this source's recovery finish
-		if fh, err := os.OpenFile(fifos[source], os.O_WRONLY, 0); err == nil {
-			fh.Write(content)
-			fh.Close()
+		// (without blocking: if nobody reads the FIFO - this source's recovery has not even begun - give up
+		// after three seconds and report what was seen)
+		for i := 0; i < 150; i++ {
+			if fd, err := syscall.Open(fifos[source], syscall.O_WRONLY|syscall.O_NONBLOCK, 0); err == nil {
+				syscall.Write(fd, content)
+				syscall.Close(fd)
+				break
+			}
+			time.Sleep(20 * time.Millisecond)
 		}
 		after := -1
 		for i := 0; i < 200; i++ {
